@@ -47,6 +47,9 @@ __all__ = [
 
 class _MetricFunctionWrapper(BaseEstimator):
     def __init__(self, func, name=None, greater_is_better=False):
+        # stored under the constructor argument's own name as well, so that get_params,
+        # set_params and clone work on scorers (and on tuners holding one)
+        self.func = func
         self._func = func
         self.name = name if name is not None else func.__name__
         self.greater_is_better = greater_is_better
